@@ -33,6 +33,7 @@ class CounterModel(object):
         self.set_since_step = False
         self.step_msgs = []
         self.finalized = False            # Finalize() ran (Set*/Finalize/stop) after the run started
+        self.fin_inside = False           # mystic's own Finalize() inside the Step/Solve that is running
         self.continued_after_finalize = False
         self.dirty = False                # objective-defining Set* since the last executed _Step
         self.epoch_from = 0               # energy_history index where the current objective epoch starts
@@ -65,7 +66,7 @@ class CounterModel(object):
             solver_ = h.solver; fin = solver_.Finalize; model_ = self
             def Finalize():
                 r_ = fin()
-                if h.started or h.in_solve: model_.finalized = True
+                if h.started or h.in_solve: model_.fin_inside = True      # (counts as 'finalized' for what runs AFTER it)
                 return r_
             try:
                 solver_.Finalize = Finalize; solver_._c04_fin_wrapped = True
@@ -173,6 +174,7 @@ class CounterModel(object):
         if executed:
             if self.finalized: self.continued_after_finalize = True
             self.dirty = False
+        if self.fin_inside: self.finalized = True; self.fin_inside = False
         if msg and h.started:
             self.finalized = True
         self.stop_by_precheck = bool(msg) and not executed
@@ -190,13 +192,14 @@ class CounterModel(object):
         if executed:
             if self.finalized: self.continued_after_finalize = True
             self.dirty = False
+        self.fin_inside = False
         self.stopped = True
         self.finalized = True
         self.stop_by_precheck = not executed
 
     def on_step(self, h, s):
         self.pending_abort = False
-        if self.finalized: self.continued_after_finalize = True
+        if self.finalized or self.fin_inside: self.continued_after_finalize = True
         if h.started: self.check_best_vs_evaluated(h, 'iteration_%d' % s['_step_no'])
         # the callback receives the current best
         if not feq(s['_cb_x'], s['bestSolution']):
